@@ -107,7 +107,7 @@ theorem snapInst_some {snap : Snap} {is : List Inst} (hs : SnapIs snap is) {n i 
 /-! ### the assembled statement -/
 
 theorem handleUpdate_exact {c : Cat} {p sn : String} {is : List Inst}
-    (wf : WF c) (ok : SnapOK sn is) (fr : Fresh c p is) (nt : NoTheft c p sn is)
+    (wf : WF c) (ok : SnapOK sn is) (fr : Fresh c p is)
     (nr : NoReuse c p sn is) (cv : Covered c p sn is)
     (he : (handleUpdate c p sn is).err = none) (hp : (handleUpdate c p sn is).panic = false) :
     WF (handleUpdate c p sn is).cat ∧
@@ -120,7 +120,7 @@ theorem handleUpdate_exact {c : Cat} {p sn : String} {is : List Inst}
   obtain ⟨st, snap, c1, l1, hst, hsnap, hr, hcat⟩ := handleUpdate_ok he hp
   obtain ⟨snap', hsnap', swf, sis⟩ := mkSnap_is ok
   rw [hsnap] at hsnap'; cases hsnap'
-  have ph := phase1 wf ok sis fr nt hst hr
+  have ph := phase1 wf ok sis fr hst hr
   have hd := runOps_deregs _ c1 (cleanupCmds_dereg p snap st)
   have hk := runOps_deregs_keep _ c1 (cleanupCmds_dereg p snap st)
   have hdu := dropUnused_keep p (cleanup p snap st).unused (runOps c1 (cleanupCmds p (cleanup p snap st))).1
